@@ -1,6 +1,8 @@
 //! C06 — canonical (Lee) classes and the s-type invariant: oracles on the library (cycles, non-torsion, Lee/BN
 //! ranks, diagram independence, reduced = unreduced, mirror, crossing change), Lean side: valuation loop, ss
-//! arithmetic, Lee / Bar-Natan ranks of the cube reference.
+//! arithmetic, Lee / Bar-Natan ranks of the cube reference; construction of the canonical cycles: `ori_pres_state`,
+//! `seifert_circles` and the cycles of the engine run WITHOUT elimination (`auto_deloop = auto_elim = false`), compared
+//! exactly with the Lean construction model (Model/C06Canon: walk, BFS colouring, expansion into cube generators).
 use num_bigint::BigInt;
 use num_traits::Zero;
 use yui::poly::Poly;
@@ -147,6 +149,26 @@ fn canon_construct(s: &mut Sink, name: &str, l: &Link, h: i64, base: Option<usiz
     s.count(&format!("canon.h.{}", h));
 }
 
+/// boundary: a base edge that is not an edge of the diagram. For a knot `colored_seifert_circles` finds no circle
+/// through it (`unwrap` on `None`: panic, modelled as `Res.panic`); a link that is not a knot gets no cycles at all.
+fn canon_boundary(s: &mut Sink, l: &Link, h: i64) {
+    let base = l.edges().into_iter().max().unwrap_or(0) + 1 + (h.unsigned_abs() as usize);
+    let req = format!("canon {} {} {}", h, base, link_txt(l));
+    let l2 = l.clone();
+    let built = guard(move || { let b = TngComplexBuilder::<i64>::new(&l2, &h, &0, Some(base)); b.elements().count() });
+    let reply = match built {
+        None => "panic".to_string(),
+        Some(k) => {
+            let s0: Vec<bool> = l.ori_pres_state().iter().map(|b| b.is_one()).collect();
+            let mut circ: Vec<usize> = l.seifert_circles().iter().map(|c| c.min_edge()).collect();
+            circ.sort();
+            format!("s={} circ={} z={} chk=ok", bits_txt(&s0), circ.iter().map(|e| e.to_string()).collect::<Vec<_>>().join(","), if k == 0 { "none".to_string() } else { format!("{} cycles", k) })
+        }
+    };
+    s.case(&req, &reply, true);
+    s.count(if built.is_none() { "canon.boundary.panic" } else { "canon.boundary.nocycles" });
+}
+
 /// the construction stream for one diagram: every h in {0,1,2,3,-1}; `mode` 0: unreduced + reduced at every edge,
 /// 1: unreduced + reduced at `first_edge` + reduced at a random edge, 2: one of these three per h (rotating)
 fn canon_stream(s: &mut Sink, r: &mut Rng, name: &str, l: &Link, mode: u8) {
@@ -238,7 +260,8 @@ fn main() {
     let thorough = args.thorough();
     let mut s = Sink::new(&args, "cases: knot diagrams (table knots, braid-closure knots, kinked unknots) x {ss over (Z,2),(Z,3),(BigInt,2),(F2[H],H),(F3[H],H),(Q[H],H)} x reduced/unreduced \
         x mirror x random relabelling/kink moves x every positive crossing switched; canonical cycles for h in {0,1,2,3,H}; Lee/Bar-Natan ranks for links; random vectors through div_vec vs the Lean \
-        valuation model; non-trivial = every knot case and every vector with a non-zero entry; distinct = distinct descriptions");
+        valuation model; construction stream: knots with <= 7 (8) crossings, their mirrors and moved diagrams x h in {0,1,2,3,-1} x {unreduced, reduced at first_edge, reduced at other edges} \
+        through TngComplexBuilder without elimination vs the Lean construction of the cycles, Seifert circles of all diagrams, base edges outside the diagram (panic); non-trivial = every knot case and every vector with a non-zero entry; distinct = distinct descriptions");
     let mut r = Rng::new(args.seed);
 
     // valuation loop differential
@@ -311,6 +334,7 @@ fn main() {
             }
         }
         for (name, l) in &links { if !l.is_knot() && l.crossing_num() <= 6 { guarded_case(&mut s, name, |s| seifert_case(s, l)); } }
+        for (i, (_, l)) in ds.iter().enumerate() { if !l.is_empty() && (i < 8 || thorough) { canon_boundary(&mut s, l, (i % 3) as i64); } }
         for (name, l) in &ds {
             let n = l.crossing_num();
             let mode = if n <= (if thorough { 5 } else { 3 }) { 0 } else if thorough || n <= 6 { 1 } else { 2 };
